@@ -21,6 +21,17 @@ Theorem guards_as_modelled : LifecycleGuards.guards = GuardTable.expected_guards
 Proof. exact GuardTie.guards_as_modelled. Qed.
 Print Assumptions guards_as_modelled.
 
+(* every operation handler (modelled or not) reaches the crypto engine / stored objects / State only as tabulated *)
+Theorem reach_as_modelled : LifecycleGuards.reach = GuardTable.expected_reach.
+Proof. exact GuardTie.reach_as_modelled. Qed.
+Print Assumptions reach_as_modelled.
+
+(* Register (plain or of a wrapped key) consults no stored object: outcome and new object do not depend on the store *)
+Theorem register_uses_no_key : forall cok s t m,
+  step cok s (Register t m) = (OK, add_obj s t m) /\ (forall v ob, lookup v (objs s) = Some ob -> lookup v (objs (add_obj s t m)) = Some ob).
+Proof. exact LifecycleProofs.register_uses_no_key. Qed.
+Print Assumptions register_uses_no_key.
+
 (* ---------------------------------------------------------------- 1. allowed transitions *)
 (* exactly what one step does to one stored object, for ANY store: type and mask are untouched and the State
    changes in one of the four listed ways (Lifecycle.Spec.transition) *)
